@@ -695,7 +695,28 @@ fn write_evidence(profile: &str, tier: &str, seed: u64, agg: &Aggregate, wall: f
     let dir = verif_dir().join("evidence");
     std::fs::create_dir_all(&dir).map_err(|e| e.to_string())?;
     let runs_per_hour = if wall > 0.0 { agg.runs as f64 * 3600.0 / wall } else { 0.0 };
-    let zero_probes: Vec<&String> = agg.probes.iter().filter(|(_, v)| **v == 0).map(|(k, _)| k).collect();
+    let expected: &[&str] = match profile {
+        "C01" => &["prefix_pair_long_owns_utxos", "real_1000_page_crossed", "multi_page_answer", "anchor_advance_discards_fork", "upgrade_while_ingestion_paused"],
+        "C02" | "C04" | "C05" => &["anchor_advance_discards_fork", "ingestion_paused", "blocks_admitted"],
+        "C03" => &["anchor_advance", "anchor_advance_discards_fork", "ingestion_paused"],
+        "C06" => &["session_interleaved_completed", "page_token_invalidated", "session_with_min_confirmations", "arbitrary_page_error", "arbitrary_page_answered"],
+        "C07" => &["header_range_straddles_boundary", "ingestion_paused", "upgrade_while_ingestion_paused"],
+        "C08" => &["ingestion_paused", "paused_twice_in_one_block", "twin_compared"],
+        "C09" => &["upgrade_with_call_in_flight", "upgrade_with_partial_pages", "upgrade_with_complete_response", "upgrade_while_ingestion_paused", "fee_window_nonempty"],
+        "C10" | "C11" => &["reject_duplicate", "reject_unknown-parent", "reject_parent-not-unstable", "reject_undecodable", "reject_invalid-header", "reject_invalid-body", "next_header_invalid", "next_header_undecodable"],
+        "C13" => &["paged_reply", "pages_reassembled", "partial_with_zero_follow_ups", "heartbeat_while_call_outstanding", "three_or_more_overlapping_heartbeats", "upgrade_with_partial_pages", "quiesced"],
+        "C14" => &["sync_gate_closed", "api_disabled", "gate_wrong_network", "send_transaction_exempt_from_sync_rule"],
+        "C15" => &["fee_window_nonempty", "fee_window_empty_previous_kept", "fee_window_10000_cut"],
+        "C16" => &["paid_below_maximum", "paid_request_level_error", "paid_variable_part_capped", "paid_with_cdk_cost_default_fees"],
+        "C17" => &["round_with_failed_explorer", "round_with_quorum", "round_not_enough_data", "flag_changed_by_watchdog", "permutation_checked"],
+        "C19" => &["send_tx_forwarded", "send_tx_malformed_refused", "send_tx_guard_refused", "send_tx_internal_reject"],
+        "C20" => &["anchor_advance_discards_fork", "announced_headers_held", "upgrade_with_call_in_flight"],
+        _ => &[],
+    };
+    let zero_probes: Vec<String> = expected.iter().filter(|k| agg.probes.get(**k).copied().unwrap_or(0) == 0).map(|k| k.to_string()).collect();
+    for z in &zero_probes {
+        report(&format!("WARNING: probe '{z}' was never hit in this batch"));
+    }
     let mut samples = agg.samples.clone();
     if samples.is_empty() {
         samples.push(json!({"note": "no non-trivial run in this batch"}));
